@@ -132,7 +132,9 @@ fn regex<'a, T: Queryable>(lhs: State<'a, T>, rhs: State<'a, T>, substr: bool) -
     };
 
     match (to_str(lhs), to_str(rhs)) {
-        (Some(lhs), Some(rhs)) => Regex::new(&prepare_regex(rhs, substr))
+        // the pattern has to be valid on its own, not only inside the anchoring group of `match`
+        (Some(lhs), Some(rhs)) => Regex::new(&prepare_regex(rhs.clone(), true))
+            .and_then(|_| Regex::new(&prepare_regex(rhs, substr)))
             .map(|re| to_state(regex(&lhs, re)))
             .unwrap_or(to_state(false)),
         _ => to_state(false),
